@@ -145,11 +145,15 @@ def _space_of(ctx, n, cache={}):
     return cache[n]
 
 
-def _judge(ctx: Ctx, c, res, p, replies):
+def _judge(ctx: Ctx, c, res, p, replies, req0=""):
     st, data = res[0], bytes.fromhex(res[1])
     ctx.count("impl:" + st)
     mst, mdata = U.model_bytes(replies[0])
-    if st != mst:
+    if st == mst == "ok" and data != mdata and p[5] > U.TABLE and \
+            U.model_bytes(ctx.driver("drv_ph").ask(req0.replace("display ", "display9 ", 1))) == ("ok", data):
+        # C14 does not depend on the trailing reset of blank lines (defect D9 of C13): either variant is accepted
+        ctx.count("K:matches-model-without-D9-repair")
+    elif st != mst:
         ctx.mismatch("display_only status", c, st, mst)
     elif st == "ok" and data != mdata:
         ctx.mismatch("display_only bytes", c, data.hex()[:400], mdata.hex()[:400])
@@ -200,7 +204,7 @@ def run_batch(ctx: Ctx, batch):
     replies = ctx.driver("drv_ph").ask_many(flat)
     i = 0
     for c, res, p, reqs in prep:
-        _judge(ctx, c, res, p, replies[i:i + len(reqs)])
+        _judge(ctx, c, res, p, replies[i:i + len(reqs)], reqs[0])
         i += len(reqs)
         ctx.case(c, nontrivial=(res[0] == "ok"))
 
@@ -208,7 +212,7 @@ def run_batch(ctx: Ctx, batch):
 def check_case(ctx: Ctx, c: dict):
     res = host([c])[0]
     p, reqs = _reqs(c, res)
-    _judge(ctx, c, res, p, ctx.driver("drv_ph").ask_many(reqs))
+    _judge(ctx, c, res, p, ctx.driver("drv_ph").ask_many(reqs), reqs[0])
 
 
 # ------------------------------------------------------------------------------------------
